@@ -156,7 +156,7 @@ func propC18(t *rapid.T) {
 				w = m.Window(base, base|0xFFFF)
 			}
 			if w.Card() > target {
-				if rapid.Bool().Draw(t, "land.tail") {
+				if rapid.Bool().Draw(t, "land.tail") && base|0xFFFF != model.Max64 { // (no exclusive end exists for the very last chunk)
 					x, _ := w.Select(target)
 					b.RemoveRange(x, base+65536)
 					m.RemoveRange(x, base|0xFFFF)
